@@ -1289,6 +1289,9 @@ class _PieceBytes:
     def __class__(self):
         return bytes
 
+    def __ch_pytype__(self):         # CrossHair's isinstance()/type() ask this (save() checks isinstance(result, bytes))
+        return bytes
+
     def __len__(self):
         n = 0
         for p in self.parts:
@@ -1530,6 +1533,69 @@ def obligations(tier):
         "name = 'm'*k + 1..2 symbolic letters over {a, b}")
     wit("names", "h_names_w", [{"k": 0, "nt": 1, "lump": "sprp"}, {"k": 0, "nt": 1, "lump": "dprp"}])
     wit("sprops", "h_sprops_w", [{"n": 1, "version": "V10"}, {"n": 1, "version": "V_LIGHTMAP_v10"}, {"n": 1, "version": "V5"}])
+
+    # ---- extension: faces / bmodels / water-leaf info / entity lump
+    FI, FS = FACE_INTS, FACE_SHAPE
+
+    def without(d, *keys):
+        return {k: v for k, v in d.items() if k not in keys}
+    fsl = []
+    # aliasing slices: F1's edge window, original-face choice, missing texinfo, pre-assigned surfedges symbolic (ints concrete)
+    for w0 in ((1, 3, 6, 9) if quick else range(10)):
+        for hdr in (False, True):
+            fsl.append(dict(FI, **without(FS, "w1", "og", "tn", "pre"), w0=w0, n=2, hdr=hdr, cfg="v20"))
+    # primitive windows + light styles symbolic
+    fsl += [dict(FI, **without(FS, "p0", "p1", "ls"), w0=3, n=2, hdr=h, cfg=c) for h, c in ((False, "v20"), (True, "chaos"))]
+    # integer / bool fields of F0 symbolic, three groups (the product of all thirteen does not exhaust)
+    groups = (("disp", "fog", "lmoff", "side", "onnode", "dyn"), ("lmx", "lmy", "lsx", "lsy"), ("smooth", "hid", "vflags"))
+    for c in (("v20", "chaos", "vitamin") if quick else ("v20", "v19", "v21", "l4d2", "infra", "chaos", "vitamin")):
+        for g in groups:
+            fsl.append(dict(without(FI, *g), **FS, w0=3, n=2, hdr=(c == "v20"), cfg=c))
+        fsl.append(dict(FI, **without(FS, "w1", "og", "tn", "pre"), w0=3, n=2, hdr=False, cfg=c))
+    fsl += [dict(without(FI, *groups[2]), **FS, w0=3, n=n, hdr=True, cfg="v20") for n in (0, 1)]
+    add("faces", "h_faces", fsl,
+        "faces / HDR faces / original faces with their surfedges, edges, primitives, texinfo, planes and FACEIDS: every integer and bool field of a "
+        "face symbolic, edge and primitive lists as windows of shared pools (shared edges, an edge and its reversed twin), original face shared / "
+        "appended by the writer / absent, texinfo absent, surfedges assigned beforehand or built by the writer; VitaminSource layout",
+        "<= 2 faces (+ parallel HDR list) over 1-2 original faces, pool of 3 surfedges and 2 primitives; symbolic ints in three groups")
+    wit("faces", "h_faces_w", [dict(without(FI, *groups[0]), **FS, w0=3, n=2, hdr=True, cfg="v20"),
+                               dict(FI, **without(FS, "w1", "og", "tn", "pre"), w0=6, n=2, hdr=False, cfg="chaos"),
+                               dict(without(FI, *groups[2]), **FS, w0=3, n=2, hdr=False, cfg="vitamin")])
+    add("water", "h_water", [{"n": n, "cfg": c} for n in (0, 1, 2) for c in (("v20", "chaos") if quick else CONFIGS)],
+        "water-leaf info: heights, surface texinfo chosen by symbolic index among an existing / a new (symbolic flags, size) / another new texinfo, "
+        "sharing between entries, the texinfo table the writer extends", "<= 2 entries, 3 texinfos")
+    wit("water", "h_water_w", [{"n": 1, "cfg": "v20"}, {"n": 2, "cfg": "chaos"}])
+    PH = {"fw": 1, "nd": 0, "share": False, "swap": False}
+    bsl = [dict(PH, n=1, ns=ns, n0=a, n1=b_) for ns, a, b_ in ((0, 0, 0), (1, 0, 0), (1, 2, 0), (2, 1, 1), (2, 0, 2))]
+    bsl += [dict(PH, n=0, ns=1, n0=1, n1=0), {"n": 1, "ns": 1, "n0": 1, "n1": 0, "share": False, "swap": False},
+            {"n": 2, "ns": 1, "n0": 1, "n1": 0, "kvi": 2, "fw": 4}, {"n": 2, "ns": 0, "n0": 0, "n1": 0, "kvi": 0, "nd": 2, "share": False}]
+    if not quick:
+        bsl += [{"n": 2, "ns": 2, "n0": 1, "n1": 1}, {"n": 1, "ns": 2, "n0": 2, "n1": 3}, dict(PH, n=1, ns=2, n0=4, n1=0)]
+    add("bmodels", "h_bmodels", bsl,
+        "brush models: entity -> model mapping through the '*N' model key, models shared by two entities, head node shared / listed / appended by "
+        "the writer, face list as a window of a face pool, physics block (symbolic solid bytes, 0..2 solids, key-values block absent / empty / "
+        "filled) through PHYSCOLLIDE", "worldspawn + <= 2 brush entities, <= 2 solids of <= 2 symbolic bytes (thorough <= 4)", budget=B, pp=60)
+    wit("bmodels", "h_bmodels_w", [dict(PH, n=1, ns=1, n0=1, n1=0), {"n": 2, "ns": 0, "n0": 0, "n1": 0, "kvi": 0, "nd": 2, "share": False}])
+    # (the key with a surrogate-escaped byte, ki == 2, only where no symbolic text shares its piece: CrossHair's codec model realises
+    # the whole piece when it meets a concrete non-ASCII character)
+    CC = [{"ki": 1, "ti": 0, "force": True, "inst": False}, {"ki": 0, "ti": 1, "force": False, "inst": True}, {"ki": 1, "ti": 4, "force": True, "inst": True},
+          {"ki": 3, "ti": 5, "force": False, "inst": False}, {"ki": 1, "ti": 3, "force": True, "inst": False}]
+    esl = [{"ns": 0, "slot": "val", "ctx": 0}]
+    for slot in ("val", "par"):
+        esl += [dict(CC[ctx], ns=1, slot=slot, ctx=ctx) for ctx in range(len(ENT_CTX))]
+    for slot in ("tgt", "inp", "out"):          # contexts 1 and 2 (backslash / quotes around the slot) are solver-heavy here: thorough tier
+        esl += [dict(CC[ctx], ns=1, slot=slot, ctx=ctx) for ctx in ((0, 3, 4) if quick else range(len(ENT_CTX)))]
+    esl += [dict(without(CC[ctx], "ki"), ns=0, slot="key", ctx=ctx) for ctx in range(len(ENT_CTX))]
+    if not quick:
+        esl += [dict(CC[ctx], ns=2, slot=slot, ctx=ctx) for slot in ("val", "par") for ctx in (0, 1)]
+    add("entlump", "h_entlump", esl,
+        "entity lump (write_ent_data / _lmp_read_ents): keys, values, outputs in both separator formats, forced or per-output separator, instance "
+        "in/out names, times by index; one text slot (value / parameter / target / input / output name) carries a symbolic string over ALL ASCII "
+        "code points + surrogate-escaped bytes + one unencodable character inside 5 constant contexts; keys by symbolic index (hashed); the lump "
+        "travels as its written pieces (ChunkSink) through the real codec calls into the real Tokenizer",
+        "1 entity + worldspawn, 1 keyvalue + 2 outputs; one slot of exact length 0..1 (thorough 2) at a time", pp=60)
+    wit("entlump", "h_entlump_w", [dict(CC[0], ns=1, slot="val", ctx=0), dict(CC[1], ns=1, slot="par", ctx=2), {"ns": 0, "slot": "val", "ctx": 0},
+                                  dict(without(CC[0], "ki"), ns=0, slot="key", ctx=1)])
     return obls
 
 
